@@ -23,6 +23,9 @@ Fresh(run) == [
   gcNow    |-> -1,     \* start time of the sweep in progress (its query)
   gcSnap   |-> <<>>,   \* lastAdd as the sweeper's snapshot saw it
   raced    |-> {},     \* <<k,p>> whose fresh record was dropped by the documented race
+  pending  |-> {},     \* <<k,p>> with an addition in progress (concurrent operations)
+  getsOpen |-> {},     \* keys with a query in progress, with the additions that overlapped it
+  overlap  |-> {},     \* <<k,p>> whose addition overlapped a query still in progress
   closed   |-> FALSE,
   viol     |-> {} ]
 
@@ -39,6 +42,13 @@ Set(f, x, v) == [y \in (DOMAIN f) \cup {x} |-> IF y = x THEN v ELSE f[y]]
 FreshAt(f, x, t) == x \in DOMAIN f /\ t - f[x] <= c.validity
 FreshSet(k, t) == {x[2] : x \in {y \in DOMAIN s.lastAdd : y[1] = k /\ FreshAt(s.lastAdd, y, t)}}
 
+AddStart == Is("AddStart") /\ Step([s EXCEPT !.pending = @ \cup {<<Ev.k, Ev.p>>},
+                                                 !.overlap = IF Ev.k \in s.getsOpen THEN @ \cup {<<Ev.k, Ev.p>>} ELSE @])
+GetStart == Is("GetStart") /\ Step([s EXCEPT !.getsOpen = @ \cup {Ev.k},
+                                                 !.overlap = @ \cup {x \in s.pending : x[1] = Ev.k}])
+AddRefused == Is("AddRefused") /\ Step([s EXCEPT !.pending = @ \ {<<Ev.k, Ev.p>>}])
+ConcEnd == Is("ConcEnd") /\ Step([s EXCEPT !.pending = {}, !.getsOpen = {}, !.overlap = {}])
+
 Add ==
   /\ Is("Add")
   /\ IF Ev.closed
@@ -46,6 +56,7 @@ Add ==
      ELSE Step([s EXCEPT
             !.lastAdd = IF Ev.err = "" THEN Set(@, <<Ev.k, Ev.p>>, Ev.ts) ELSE @,
             !.raced = @ \ {<<Ev.k, Ev.p>>},
+            !.pending = @ \ {<<Ev.k, Ev.p>>},
             !.viol = @ \cup Flag(Ev.err = "", "C07", "a_add_failed")])
 
 Get ==
@@ -54,11 +65,13 @@ Get ==
      THEN Step([s EXCEPT !.viol = @ \cup Flag(Ev.err = "closed", "C07", "d_get_after_close_not_refused")])
      ELSE LET got == Range(Ev.provs)
               fresh == FreshSet(Ev.k, Ev.ts)
-              maybe == {x[2] : x \in {y \in s.raced : y[1] = Ev.k}}
+              \* additions that overlapped this query may or may not be visible to it
+              conc == {x[2] : x \in {y \in s.overlap \cup s.pending : y[1] = Ev.k}}
+              maybe == {x[2] : x \in {y \in s.raced : y[1] = Ev.k}} \cup conc
           IN Step([s EXCEPT !.viol = @
                \cup Flag(Ev.err = "", "C07", "a_get_failed")
                \cup Flag((fresh \ maybe) \subseteq got, "C07", "a_valid_provider_not_returned")
-               \cup Flag(got \subseteq fresh, "C07", "b_expired_or_unknown_provider_returned")
+               \cup Flag(got \subseteq fresh \cup conc, "C07", "b_expired_or_unknown_provider_returned")
                \cup Flag(Cardinality(got) = Len(Ev.provs), "C07", "c_duplicate_provider")])
 
 DS ==
@@ -85,7 +98,7 @@ Close == Is("Close") /\ Step([s EXCEPT !.closed = TRUE])
 Stuck == Is("Stuck") /\ Step([s EXCEPT !.viol = @ \cup {<<"C07", "d_goroutines_blocked_forever">>}])
 End == Is("End") /\ Step(s)
 
-Next == Add \/ Get \/ DS \/ Tick \/ Restart \/ Close \/ Stuck \/ End
+Next == AddStart \/ GetStart \/ AddRefused \/ ConcEnd \/ Add \/ Get \/ DS \/ Tick \/ Restart \/ Close \/ Stuck \/ End
 TraceSpec == Init /\ [][Next]_vars
 TraceAccepted == TLCGet("distinct") = NLines
 InvC07 == {v \in s.viol : v[1] = "C07"} = {}
